@@ -1,4 +1,5 @@
 import BarterModel.Model.ExchangeStream
+import BarterModel.Model.Streams
 /-! Helper lemmas for C12W (`ExchangeStream`, WebSocket parser, `de.rs`). Core Lean only. -/
 namespace BarterModel.ExStream
 
@@ -232,12 +233,6 @@ theorem specPolls_nil_iff (P : Params μ ε ι σ ο τ) (s : St μ σ ο τ) :
 
 /-! `process_buffered_events` -/
 
-/-- The parameters with parse failures turned into skippable messages. -/
-def quiet (P : Params μ ε ι σ ο τ) : Params μ ε ι σ ο τ :=
-  { P with parse := fun m => match P.parse m with
-      | some (.error _) => none
-      | r => r }
-
 theorem processBuffered_eq (P : Params μ ε ι σ ο τ) (t : σ) (ms : List μ) :
     processBuffered P t ms = (specState (quiet P) t ms, specOut (quiet P) t ms) := by
   induction ms generalizing t with
@@ -364,5 +359,228 @@ theorem roundHalfEven_intCast (z : Int) : roundHalfEven (z : Rat) = z := by
   have h : ((z : Rat) - ((z : Int) : Rat)) = 0 := by grind
   simp only [Rat.floor_intCast, h]
   rw [if_pos (by grind)]
+
+/-! ## `f64::from_str` -/
+
+theorem span_loop {α : Type} (p : α → Bool) (ip rest acc : List α) (hip : ∀ a ∈ ip, p a = true)
+    (hr : ∀ c r, rest = c :: r → p c = false) :
+    List.span.loop p (ip ++ rest) acc = (acc.reverse ++ ip, rest) := by
+  induction ip generalizing acc with
+  | nil =>
+    cases rest with
+    | nil => simp [List.span.loop]
+    | cons c r => simp [List.span.loop, hr c r rfl]
+  | cons a ip ih =>
+    have ha : p a = true := hip a (by simp)
+    simp only [List.cons_append, List.span.loop, ha]
+    rw [ih (a :: acc) (fun x hx => hip x (by simp [hx]))]
+    simp
+
+theorem span_digits (ip rest : List Char) (hip : ip.all isDigit = true)
+    (hr : ∀ c r, rest = c :: r → isDigit c = false) :
+    (ip ++ rest).span isDigit = (ip, rest) := by
+  have := span_loop isDigit ip rest [] (by simpa using hip) hr
+  simpa [List.span] using this
+
+/-- the exponent-free decimal numeral `ip.fp` -/
+theorem parseNumber_decimal (ip fp : List Char) (hip : ip.all isDigit = true) (hfp : fp.all isDigit = true)
+    (hne : ip ≠ [] ∨ fp ≠ []) :
+    parseNumber (ip ++ '.' :: fp) = some ((natOfDigits (ip ++ fp) : Rat) * pow10Rat (-(fp.length : Int))) := by
+  have h1 : (ip ++ '.' :: fp).span isDigit = (ip, '.' :: fp) :=
+    span_digits ip ('.' :: fp) hip (by intro c r h; cases h; decide)
+  have h2 : fp.span isDigit = (fp, []) := by
+    have := span_digits fp [] hfp (by intro c r h; cases h)
+    simpa using this
+  unfold parseNumber
+  simp only [h1, h2]
+  have : (ip.isEmpty && fp.isEmpty) = false := by
+    rcases hne with h | h
+    · cases ip <;> simp_all
+    · cases fp <;> simp_all
+  simp [this, parseExp]
+
+theorem parseNumber_integer (ip : List Char) (hip : ip.all isDigit = true) (hne : ip ≠ []) :
+    parseNumber ip = some (natOfDigits ip : Rat) := by
+  have h1 : ip.span isDigit = (ip, []) := by
+    have := span_digits ip [] hip (by intro c r h; cases h)
+    simpa using this
+  unfold parseNumber
+  simp only [h1]
+  have : ip.isEmpty = false := by cases ip <;> simp_all
+  simp [this, parseExp, pow10Rat]
+
+/-- a string that does not start with a digit or a dot is not a `Number` -/
+theorem parseNumber_none_of_head (c : Char) (r : List Char) (hd : isDigit c = false) (hdot : c ≠ '.') :
+    parseNumber (c :: r) = none := by
+  have h1 : (c :: r).span isDigit = ([], c :: r) := by
+    have := span_digits [] (c :: r) (by simp) (by intro c' r' h; cases h; exact hd)
+    simpa using this
+  unfold parseNumber
+  simp only [h1]
+  split
+  · rename_i h; cases h; exact absurd rfl hdot
+  · simp
+
+theorem parseF64Str_number (sem : FloatSem) (cs : List Char) (d : Rat) (h : parseNumber cs = some d) :
+    parseF64Str sem cs = .ok (sem.round d) := by
+  cases cs with
+  | nil => simp [parseNumber, List.span, List.span.loop] at h
+  | cons c r =>
+    have hm : c ≠ '-' := by
+      intro hc; subst hc
+      rw [parseNumber_none_of_head '-' r (by decide) (by decide)] at h; cases h
+    have hp : c ≠ '+' := by
+      intro hc; subst hc
+      rw [parseNumber_none_of_head '+' r (by decide) (by decide)] at h; cases h
+    have hs : splitSign (c :: r) = (false, c :: r) := by
+      unfold splitSign; split <;> simp_all
+    simp [parseF64Str, hs, h]
+
+theorem parseF64Str_negative (sem : FloatSem) (body : List Char) (d : Rat) (h : parseNumber body = some d) :
+    parseF64Str sem ('-' :: body) = .ok (sem.round (-d)) := by
+  simp [parseF64Str, splitSign, h]
+
+/-! ## laziness, ASCII payloads, scientific notation -/
+
+/-- laziness of one poll from an empty buffer: everything consumed before the item that produced
+the result contributed nothing (no output, no `Pending`) -/
+theorem pollInner_minimal (P : Params μ ε ι σ ο τ) (ended : Bool) (t : σ) (items : List (Inner μ)) :
+    (pollInner P ended t items).1.stream.items = [] ∧ specTrace P t items = [] ∨
+    ∃ pre last, items = pre ++ last :: (pollInner P ended t items).1.stream.items ∧
+      specTrace P t pre = [] ∧
+      specTrace P (specState P t (messages pre)) [last] ≠ [] := by
+  induction items generalizing t with
+  | nil => left; simp [pollInner, specTrace]
+  | cons i items ih =>
+    cases i with
+    | pending =>
+      right; exact ⟨[], .pending, by simp [pollInner], rfl, by simp [specTrace]⟩
+    | item m =>
+      simp only [pollInner]
+      cases hp : P.parse m with
+      | none =>
+        rcases ih t with ⟨h1, h2⟩ | ⟨pre, last, h1, h2, h3⟩
+        · left; exact ⟨h1, by simp [specTrace, contribution, hp, h2]⟩
+        · right
+          refine ⟨.item m :: pre, last, by simp [← h1], by simp [specTrace, contribution, hp, h2], ?_⟩
+          simpa [messages, specState, contribution, hp] using h3
+      | some r =>
+        cases r with
+        | error e =>
+          right
+          exact ⟨[], .item m, by simp, rfl, by simp [specTrace, contribution, hp, messages, specState]⟩
+        | ok x =>
+          simp only
+          rcases htr : P.transform t x with ⟨t', outs⟩
+          cases outs with
+          | nil =>
+            rcases ih t' with ⟨h1, h2⟩ | ⟨pre, last, h1, h2, h3⟩
+            · left; exact ⟨h1, by simp [specTrace, contribution, hp, htr, h2]⟩
+            · right
+              refine ⟨.item m :: pre, last, by simp [← h1], by simp [specTrace, contribution, hp, htr, h2], ?_⟩
+              simpa [messages, specState, contribution, hp, htr] using h3
+          | cons o os =>
+            right
+            exact ⟨[], .item m, by simp, rfl, by simp [specTrace, contribution, hp, htr, messages, specState]⟩
+
+/-- ASCII bytes are UTF-8 and decode to themselves -/
+theorem utf8Go_ascii (bs : List Nat) (h : ∀ b ∈ bs, b < 0x80) (fuel i : Nat) (acc : List Char)
+    (hf : bs.length ≤ fuel) :
+    utf8Go fuel i acc bs = .ok (acc.reverse ++ bs.map Char.ofNat) := by
+  induction bs generalizing fuel i acc with
+  | nil => cases fuel <;> simp [utf8Go]
+  | cons b bs ih =>
+    cases fuel with
+    | zero => simp at hf
+    | succ fuel =>
+      have hb : b < 0x80 := h b (by simp)
+      simp only [utf8Go, hb, if_true]
+      rw [ih (fun x hx => h x (by simp [hx])) fuel (i + 1) _ (by simpa using hf)]
+      simp
+
+theorem utf8Decode_ascii (bs : List Nat) (h : ∀ b ∈ bs, b < 0x80) :
+    utf8Decode bs = .ok (bs.map Char.ofNat) := by
+  unfold utf8Decode
+  rw [utf8Go_ascii bs h _ _ _ (Nat.le_refl _)]
+  simp
+
+theorem parseExp_digits (ds : List Char) (hd : ds.all isDigit = true) (hne : ds ≠ []) :
+    parseExp ('e' :: ds) = some (natOfDigits ds : Int) ∧
+    parseExp ('E' :: ds) = some (natOfDigits ds : Int) ∧
+    parseExp ('e' :: '-' :: ds) = some (-(natOfDigits ds : Int)) ∧
+    parseExp ('e' :: '+' :: ds) = some (natOfDigits ds : Int) := by
+  have hne' : ds.isEmpty = false := by cases ds <;> simp_all
+  have hl : lower 'e' = 'e' := by decide
+  have hL : lower 'E' = 'e' := by decide
+  refine ⟨?_, ?_, ?_, ?_⟩
+  · cases ds with
+    | nil => exact absurd rfl hne
+    | cons c r =>
+      have hc : isDigit c = true := by simp at hd; exact hd.1
+      have h1 : c ≠ '+' := by intro h; subst h; revert hc; decide
+      have h2 : c ≠ '-' := by intro h; subst h; revert hc; decide
+      unfold parseExp
+      simp only [hl, if_true]
+      split
+      · rename_i heq; cases heq; exact absurd rfl h1
+      · rename_i heq; cases heq; exact absurd rfl h2
+      · simp [hd]
+  · cases ds with
+    | nil => exact absurd rfl hne
+    | cons c r =>
+      have hc : isDigit c = true := by simp at hd; exact hd.1
+      have h1 : c ≠ '+' := by intro h; subst h; revert hc; decide
+      have h2 : c ≠ '-' := by intro h; subst h; revert hc; decide
+      unfold parseExp
+      simp only [hL, if_true]
+      split
+      · rename_i heq; cases heq; exact absurd rfl h1
+      · rename_i heq; cases heq; exact absurd rfl h2
+      · simp [hd]
+  · simp [parseExp, hl, hd, hne']
+  · simp [parseExp, hl, hd, hne']
+
+/-- scientific notation `ip.fp e ds` / `ip.fp e-ds` -/
+theorem parseNumber_scientific (ip fp ds : List Char) (hip : ip.all isDigit = true)
+    (hfp : fp.all isDigit = true) (hds : ds.all isDigit = true) (hne : ip ≠ [] ∨ fp ≠ []) (hdne : ds ≠ []) :
+    parseNumber (ip ++ '.' :: (fp ++ 'e' :: ds)) =
+      some ((natOfDigits (ip ++ fp) : Rat) * pow10Rat ((natOfDigits ds : Int) - fp.length)) ∧
+    parseNumber (ip ++ '.' :: (fp ++ 'e' :: '-' :: ds)) =
+      some ((natOfDigits (ip ++ fp) : Rat) * pow10Rat (-(natOfDigits ds : Int) - fp.length)) := by
+  have h1 : ∀ rest, (ip ++ '.' :: rest).span isDigit = (ip, '.' :: rest) := fun rest =>
+    span_digits ip ('.' :: rest) hip (by intro c r h; cases h; decide)
+  have h2 : ∀ rest, (fp ++ 'e' :: rest).span isDigit = (fp, 'e' :: rest) := fun rest =>
+    span_digits fp ('e' :: rest) hfp (by intro c r h; cases h; decide)
+  have hemp : (ip.isEmpty && fp.isEmpty) = false := by
+    rcases hne with h | h
+    · cases ip <;> simp_all
+    · cases fp <;> simp_all
+  have he := parseExp_digits ds hds hdne
+  constructor
+  · unfold parseNumber
+    simp only [h1, h2]
+    simp [hemp, he.1]
+  · unfold parseNumber
+    simp only [h1, h2]
+    simp [hemp, he.2.2.1]
+
+/-! ## bridge to the reconnecting-stream model of C12 (`Model/Streams.lean`) -/
+
+/-- An output item as an element of a C12 connection script: `val` / `errId` name the payloads,
+`terminal` is the consumer's `is_terminal`. -/
+def toElem (val : ο → Nat) (errId : τ → Nat) (terminal : τ → Bool) : Except τ ο → Streams.Elem
+  | .ok x => .item (val x)
+  | .error e => .error (errId e) (terminal e)
+
+def toRes (val : ο → Nat) (errId : τ → Nat) (terminal : τ → Bool) : Except τ ο → Streams.Res
+  | .ok x => .ok (val x)
+  | .error e => .err ⟨errId e, terminal e⟩
+
+theorem elemSteps_map_toElem (val : ο → Nat) (errId : τ → Nat) (terminal : τ → Bool) (l : List (Except τ ο)) :
+    Streams.elemSteps (l.map (toElem val errId terminal)) =
+      l.map (fun o => Streams.Step.yield (toRes val errId terminal o)) := by
+  induction l with
+  | nil => rfl
+  | cons o l ih => cases o <;> simp [Streams.elemSteps, toElem, toRes, ih]
 
 end BarterModel.ExStream
